@@ -222,6 +222,7 @@ import sys as _sys
 DPOOL = [RealDecimal('1'), RealDecimal('1.5'), RealDecimal('-2.25'), RealDecimal('0.1'), RealDecimal('2') / RealDecimal('3'),
          RealDecimal('12345678901234567890123456789'), RealDecimal('-0.000123'), RealDecimal('99999.99999')]
 BIG = [RealDecimal('1E+40'), RealDecimal('-7E+1000')]
+IPOOL = [3, 10 ** 17, -5, True, 123456789012345678901234567890, 0, 7, 10 ** 27]       # host-supplied Python ints (and a bool)
 
 
 def _digits(x):
@@ -278,7 +279,7 @@ def builtin_digits(di: int, dj: int, nd: int, big: bool) -> None:
     hlib.done()
 
 
-def operator_digits(di: int, dj: int, big: bool) -> None:
+def operator_digits(di: int, dj: int, big: bool, ia: bool, ib: bool) -> None:
     """
     pre: 0 <= di < 8 and 0 <= dj < 8
     post: True
@@ -288,6 +289,10 @@ def operator_digits(di: int, dj: int, big: bool) -> None:
     di, dj = hlib.concrete(di, 0, 7), hlib.concrete(dj, 0, 7)
     a = BIG[di % 2] if big else DPOOL[di]
     b = DPOOL[dj]
+    if ia:
+        a = IPOOL[di]          # host int on the left
+    if ib:
+        b = IPOOL[dj]          # host int on the right
     raised, r = None, None
     with _CtxGuard():
         try:
@@ -306,5 +311,6 @@ def operator_digits(di: int, dj: int, big: bool) -> None:
     c = _decimal.getcontext()
     assert c.prec == 28 and c.rounding == ROUND_HALF_EVEN, "decimal context changed by an operator"
     if raised is None and not isinstance(r, bool):
-        assert _digits(r) <= max(28, max(_digits(a), _digits(b)) + 1), "operator %s returned more digits than allowed" % op
+        assert _digits(r) <= max(28, max(_digits(a), _digits(b)) + 1), \
+            "operator %s on %r, %r returned %d significant digits" % (op, a, b, _digits(r))
     hlib.done()
